@@ -6,8 +6,8 @@
     Parser:     parseNestedParens (byte scanner with a stack of lists; in a quoted string a backslash takes
                 the next byte with it; {n}CRLF literals) -> collapseStrings / splitOn (maximal runs of
                 non-list elements; runs of literals joined; runs of characters handed to splitQuoted)
-                -> splitQuoted AS REPAIRED by fixes/C42-splitquoted-escapes.patch (inside a quoted string a
-                backslash escapes a following quote or backslash) ; parseNestedParens AS REPAIRED by
+                -> splitQuoted as pinned (finding F16 stays: the small repair contradicts an assertion of
+                the existing suite, see design.d/C42.md) ; parseNestedParens AS REPAIRED by
                 fixes/C42-trailing-literal-strip.patch (no s.strip() of the whole input).
     Bytes are N. *)
 From Coq Require Import List NArith ZArith Bool Decimal DecimalN.
@@ -161,36 +161,30 @@ Definition finish (st : pst) : result (list elem) :=
 
 Definition scan_all (bs : list N) : result (list elem) := bind (scan (mkp MNorm [] []) bs) finish.
 
-(** ---- splitQuoted (repaired) ---- *)
-Record sq := mks { inq : bool; inw : bool; escd : bool; word : list N; res : list item; prev : option N }.
-(* word and res reversed *)
+(** ---- splitQuoted (as pinned: a quote is taken as escaped when the PREVIOUS BYTE is a backslash, and
+        backslashes are never un-doubled -- finding F16) ---- *)
+Record sq := mks { inq : bool; inw : bool; word : list N; res : list item; prev : option N }.
+(* word and res reversed; prev = s[i-1] *)
 
-Definition emit_word (w : list N) : item := let s := List.rev w in if list_eq_dec N.eq_dec s NIL then INil else IStr s.
+Definition emit_word (w : list N) : item :=
+  let s := List.rev w in if list_eq_dec N.eq_dec s NIL then INil else IStr s.
+
+Definition prev_is_bs (st : sq) : bool := match prev st with Some b => b =? BS | None => false end.
 
 Definition sq_step (st : sq) (c : N) : result sq :=
   let p := Some c in
-  if inq st then
-    if escd st then
-      if (c =? DQ) || (c =? BS)
-      then Ok (mks true (inw st) false (c :: tl (word st)) (res st) p)
-      else Ok (mks true (inw st) false (c :: word st) (res st) p)
-    else if c =? BS then Ok (mks true (inw st) true (c :: word st) (res st) p)
-    else if c =? DQ then Ok (mks false (inw st) false [] (IStr (List.rev (word st)) :: res st) p)
-    else Ok (mks true (inw st) false (c :: word st) (res st) p)
-  else if c =? DQ then
-    match prev st with
-    | Some b => if b =? BS
-                then match word st with
-                     | [] => Err EIndex
-                     | _ :: w => Ok (mks false (inw st) false (DQ :: w) (res st) p)
-                     end
-                else Ok (mks true (inw st) false (word st) (res st) p)
-    | None => Ok (mks true (inw st) false (word st) (res st) p)
-    end
-  else if negb (inw st) && negb (is_ws c) then Ok (mks false true false (c :: word st) (res st) p)
-  else if inw st && is_ws c then Ok (mks false false false [] (emit_word (word st) :: res st) p)
-  else if inw st then Ok (mks false true false (c :: word st) (res st) p)
-  else Ok (mks false (inw st) false (word st) (res st) p).
+  if c =? DQ then
+    if prev_is_bs st then
+      match word st with
+      | [] => Err EIndex                                          (* word.pop() on an empty list *)
+      | _ :: w => Ok (mks (inq st) (inw st) (DQ :: w) (res st) p)
+      end
+    else if negb (inq st) then Ok (mks true (inw st) (word st) (res st) p)
+    else Ok (mks false (inw st) [] (IStr (List.rev (word st)) :: res st) p)
+  else if negb (inw st) && negb (inq st) && negb (is_ws c) then Ok (mks (inq st) true (c :: word st) (res st) p)
+  else if inw st && negb (inq st) && is_ws c then Ok (mks (inq st) false [] (emit_word (word st) :: res st) p)
+  else if inw st || inq st then Ok (mks (inq st) (inw st) (c :: word st) (res st) p)
+  else Ok (mks (inq st) (inw st) (word st) (res st) p).
 
 Fixpoint sq_run (st : sq) (bs : list N) : result sq :=
   match bs with
@@ -202,7 +196,7 @@ Fixpoint drop_ws (s : list N) : list N :=
   match s with b :: r => if is_ws b then drop_ws r else s | [] => [] end.
 Definition strip (s : list N) : list N := List.rev (drop_ws (List.rev (drop_ws s))).
 
-Definition sq_init : sq := mks false false false [] [] None.
+Definition sq_init : sq := mks false false [] [] None.
 Definition sq_finish (st : sq) : result (list item) :=
   if inq st then Err EQuoting
   else if inw st then Ok (List.rev (emit_word (word st) :: res st))
